@@ -150,24 +150,33 @@ Lemma begin_hist s c p exp sk : Inv s -> hist_le s (fst (begin H s c p exp sk)).
 Proof. intros HI. apply same_core_hist; auto. apply begin_core. Qed.
 
 (* DiscardPrecommittedTxsSince never touches what is committed *)
-Lemma discard_core s n :
-  let s' := fst (discard s n) in
-  s_txlog s' = s_txlog s /\ s_clog s' = s_clog s /\ s_committed s' = s_committed s /\ s_calh s' = s_calh s.
+Lemma keep_hist_le_B s s' B :
+  Inv s -> Inv s' -> clog_keep s s' -> chain (s_txlog s) 0 (H []) 0 (clogC s) B -> tl_keep B s s' ->
+  hist_le s s'.
 Proof.
-  unfold discard.
-  repeat match goal with
-  | |- context [if ?b then _ else _] => destruct b
-  | |- context [match ?x with _ => _ end] => destruct x
-  end; cbn [fst]; sp; auto.
+  intros HI HI' [Lc Ec] HchB Ht. split; [exact Lc|]. intros k K1 K2.
+  destruct (read_tx_spec s k HI K1 K2) as (e & w & Hn & (R & Es & _) & -> & _ & _).
+  destruct (read_tx_spec s' k HI' K1 ltac:(lia)) as (e' & w' & Hn' & (R' & Es' & _) & -> & _ & _).
+  destruct (chain_nth H _ _ _ _ _ _ _ _ HchB Hn) as (w0 & (R0 & _) & Eend).
+  rewrite R in R0. injection R0 as <-.
+  assert (e' = e).
+  { assert (Hn2 : nth_error (clogC s') (N.to_nat (k - 1)) = Some e).
+    { unfold clogC at 1.
+      rewrite <- (firstn_skipn (N.to_nat (s_committed s)) (firstn _ (s_clog s'))).
+      rewrite firstn_firstn. replace (Nat.min (N.to_nat (s_committed s)) (N.to_nat (s_committed s')))
+        with (N.to_nat (s_committed s)) by lia.
+      rewrite Ec. rewrite nth_error_app1; [exact Hn|].
+      apply nth_error_Some. congruence. }
+    congruence. }
+  subst e'. rewrite (Ht _ _ R Eend) in R'. congruence.
 Qed.
 
 Lemma discard_hist s n : Inv s -> hist_le s (fst (discard s n)).
 Proof.
-  intros HI. destruct (discard_core s n) as (E1 & E2 & E3 & E4).
-  apply keep_hist_le; auto.
-  - apply discard_inv; auto.
+  intros HI. destruct (discard_full H s n HI) as (HI' & (B & Hd & HchB) & _ & E2 & E3 & _).
+  apply (keep_hist_le_B s _ B); auto.
   - apply clog_keep_same; auto.
-  - apply tl_keep_same; auto.
+  - intros off x R E. eapply tl_read_drops; eauto.
 Qed.
 
 (* Close + OpenWith *)
@@ -298,7 +307,7 @@ Proof.
     match goal with |- context [may_commit ?s1] =>
       assert (HI' : Inv s1) by (eapply Inv_same_core; eauto; repeat split);
       destruct (may_commit_keep H s1 HI') as [_ ->] end. auto.
-  - destruct (discard_core s n) as (-> & _). auto.
+  - destruct (discard_full H s n HI) as (_ & (B & Hd & _) & _). intros Hin. left. eapply drops_in; eauto.
   - auto.
   - destruct (reopen_core s) as (-> & _). auto.
 Qed.
@@ -311,17 +320,25 @@ Proof.
   rewrite E. apply live_record_end; auto.
 Qed.
 
-Lemma discard_respects_committed_lemma s n :
+Lemma discard_respects_committed_lemma s n : reachable s ->
   let s' := fst (discard s n) in
   s_committed s' = s_committed s /\ committed_state s' = committed_state s /\
-  s_clog s' = s_clog s /\ s_txlog s' = s_txlog s /\
+  s_clog s' = s_clog s /\
+  (forall k, 1 <= k -> k <= s_committed s -> read_tx s' k = read_tx s k) /\
   (n <= s_committed s -> exists e, snd (discard s n) = Err e).
 Proof.
-  destruct (discard_core s n) as (E1 & E2 & E3 & E4). cbn zeta.
+  intros Hr. apply reachable_inv in Hr. cbn zeta.
+  destruct (discard_full H s n Hr) as (_ & _ & _ & E2 & E3 & E4 & _).
   split; [exact E3|]. split; [unfold committed_state; rewrite E3, E4; reflexivity|].
-  split; [exact E2|]. split; [exact E1|].
+  split; [exact E2|]. split; [apply (discard_hist s n Hr)|].
   intros L. unfold discard. destruct (n =? 0); [cbn [snd]; eauto|].
   destruct (N.leb_spec n (s_committed s)); [cbn [snd]; eauto|lia].
+Qed.
+
+(* a clean close/reopen leaves the committed id where it was *)
+Lemma reopen_committed s : Inv s -> s_committed (fst (reopen H s)) = s_committed s.
+Proof.
+  intros HI. pose proof HI as []. destruct (reopen_core s) as (_ & _ & [E|E]); [exact E|]. lia.
 Qed.
 
 End Hist.
